@@ -85,6 +85,13 @@ def shapes_for(opname, op):
                     variants += [("col", "none", "lit"), ("col", "lit", "none"), ("col", "none", "none")]
                 if opname in ("fill_null", "coalesce") and n == 2:
                     variants += [("col", "lit")]
+                if opname != "clip" and 2 <= n <= 3:
+                    # a None literal at each non-first, non-const position (null propagation / Kleene logic with an untyped NULL)
+                    for j in range(1, n):
+                        if not consts[j] and not consts[0]:
+                            variants.append(tuple("none" if i == j else ("lit" if consts[i] else "col") for i in range(n)))
+                    if n == 3 and not any(consts):
+                        variants.append(("col", "lit", "none"))
                 for kinds in variants:
                     key = (tuple(map(str, dts)), kinds)
                     if key in seen:
@@ -160,6 +167,10 @@ def make_run(opname, op, dts, kinds, backend):
             vc.paths += 1
             if p.kind == "exc":
                 if C.exc_is_refusal(p.value):
+                    vc.queries += 1
+                    continue
+                if "none" in kinds and isinstance(p.value, H.pdt.errors.DataTypeError) and "ambiguous call" in str(p.value):
+                    # an untyped None literal that matches several overloads is rejected when the expression is built (C13/C14)
                     vc.queries += 1
                     continue
                 # an exception on a feasible path: the operator cannot be compiled for these inputs
